@@ -496,6 +496,31 @@ func ClauseOptions(yield func(name string, s S)) {
 	s = base()
 	s.Items = []SelItem{{X: Col("c1"), Alias: "a1"}, {X: Col("c2"), Alias: "a2", AsKw: true}}
 	yield("aliases", s.Build())
+	// comparisons between two literals of every pair of kinds (number, string, NULL, boolean, placeholder), as the WHERE
+	// condition, as a HAVING condition next to a WHERE, and below OR: code that looks at both operands of a comparison meets
+	// every combination of literal payloads
+	lits := []struct {
+		name string
+		x    func() X
+	}{{"int", func() X { return Int("1") }}, {"str", func() X { return Str("s1") }}, {"null", func() X { return Null() }},
+		{"bool", func() X { return Bool("TRUE") }}, {"float", func() X { return Float("1.5") }}, {"param", func() X { return Placeholder("$1") }}}
+	for _, la := range lits {
+		for _, lb := range lits {
+			for _, op := range []string{"=", "<>"} {
+				cmp := Bin(op, la.x(), lb.x())
+				s = base()
+				s.Where = xp(cmp)
+				yield("literal-comparison", s.Build())
+				if op == "=" {
+					s = base()
+					s.Where = xp(Bin("OR", Bin("=", Col("c2"), Int("7")), cmp))
+					s.GroupBy = []X{Col("c1")}
+					s.Having = xp(Bin(op, lb.x(), la.x()))
+					yield("literal-comparison-having", s.Build())
+				}
+			}
+		}
+	}
 	// from forms
 	for _, tr := range []struct {
 		n string
